@@ -131,7 +131,8 @@ def check_case(ctx, fields, checks, header, table):
     for fmt in FORMATS:
         model = RM.CidModel(fmt, fields, checks, header)
         if fmt == "delimited":
-            model.encoding = "utf-8"
+            # (UTF-8 under any of the names the runtime knows it by)
+            model.encoding = ["utf-8", "UTF-8", "utf8", "UTF8", "utf_8", "U8"][(len(table) + len(fields) + header) % 6]
         rows = model.cid_rows()
         for row in rows:
             if row[0] == "F":
